@@ -383,7 +383,11 @@ def run(tier):
         for i in range(0, len(todo), CHUNK):
             chunks.append((mode, dc, todo[i:i + CHUNK], False))
         # the endpoint that did not initiate (the answerer) is validated as an endpoint of its own
-        others = [r for r in todo if "other" in r[-1]]
+        # (quick: not for the racing pairs and the current-thread copies, whose peer sees what it sees in the
+        # single-event scenario of the same first event)
+        others = [r for r in todo if "other" in r[-1]
+                  and (tier != "quick" or (r[0]["scenario"].get("ev2", "none") == "none"
+                                           and r[0]["scenario"].get("rt", "multi") != "current"))]
         for i in range(0, len(others), CHUNK):
             chunks.append((mode, dc, others[i:i + CHUNK], True))
 
@@ -546,7 +550,8 @@ def selftest():
     expect = {"OverwriteClosed": "TerminalIsStable", "LoopsDoneSilent": "ReportsTerminal",
               "HsRunnerDoneWaits": "Released", "StrongRefInConnLoop": "LocalEndsClosed",
               "WaitConnectedBlind": "NoHang", "SigOverwriteClosed": "TerminalIsStable",
-              "SendCheckThenPark": "NoHang", "ExitDoesNotWake": "NoHang", "GraceNotRearmed": "ReportsTerminal"}
+              "SendCheckThenPark": "NoHang", "ExitDoesNotWake": "NoHang", "GraceNotRearmed": "ReportsTerminal",
+              "GuardSkipsConnecting": "NoHang", "CloseLeavesOrphanChannels": "NoHang"}
     ok = True
     for dev, prop in expect.items():
         cfg = os.path.join(vlib.SPEC, f"MC_Lifecycle_self_{dev}_{os.getpid()}.gen.cfg")
@@ -554,7 +559,7 @@ def selftest():
         # check-then-park window only shows together with ExitDoesNotWake)
         mc_cfg(cfg, devs=[dev] + (["ExitDoesNotWake"] if dev == "SendCheckThenPark" else []), max_events=1,
                wfc=0 if dev == "GraceNotRearmed" else 1,   # (no pending wait_for_connected where the fallbacks are off)
-               phases=["offerMade", "dtlsHandshaking", "channelsOpen", "senderBlocked"],
+               phases=["offerMade", "dtlsHandshaking", "sctpConnecting", "channelsOpen", "senderBlocked"],
                flaps=1 if dev == "GraceNotRearmed" else 0, ice_fallback=dev != "GraceNotRearmed")
         res = vlib.tlc("MC_Lifecycle", os.path.basename(cfg), workers=6, timeout=1200, tag=f"self_{dev}")
         os.remove(cfg)
